@@ -351,3 +351,34 @@ Proof.
   { unfold K. destruct (fix_onepass c); [left; reflexivity|apply Hincl; left; reflexivity]. }
   unfold my_view_of. rewrite isort_length. simpl. destruct K; [contradiction|simpl; lia].
 Qed.
+
+(* how a member fails: the context ended, or intersectedView returned more members than expected *)
+Lemma step_fail c st ev st' o : step c st ev = (st', o) -> ph st' = Failed ->
+  ph st = Failed \/ ev = CtxDone \/
+  (ev = Pass2 /\ exists pend s, pass st = Some (pend, s) /\ ph st = Collect /\
+     (expected c < length (intersected c s (keys (views st))))%nat).
+Proof.
+  intros Hs Hf. destruct (step_phase _ _ _ _ _ Hs) as [Hsame _ _|L n Hc Hev Hq|L Hc Hev Hd|L k Hq Hev Hq'|L Hq Hev Hd|Hq [Hev|Hev] _ _ _];
+    try congruence; try (left; congruence); auto.
+  right. right. split; [exact Hev|]. subst ev. unfold step, decide, set_ph in Hs.
+  destruct Hq as [Hq|(L & n & Hq)]; rewrite Hq in Hs; [|inv_pair Hs; congruence].
+  destruct (pass st) as [[pend s]|] eqn:Epa; [|inv_pair Hs; congruence].
+  destruct (forallb _ pend); [|inv_pair Hs; congruence].
+  destruct (Nat.leb _ _) eqn:E1; [|inv_pair Hs; simpl in Hf; discriminate].
+  destruct (Nat.ltb _ _) eqn:E2.
+  - apply Nat.ltb_lt in E2. exists pend, s. auto.
+  - destruct (expected c - 1)%nat; inv_pair Hs; simpl in Hf; discriminate.
+Qed.
+
+Lemma intersected_length_bound c s ks :
+  NoDup ks -> ~ In (self c) ks -> NoDup (keys s) -> incl (keys s) ks ->
+  (length (intersected c s ks) <= 1 + length ks)%nat.
+Proof.
+  intros Hnd Hself Hnds Hincl.
+  destruct (intersected c s ks) as [|x m'] eqn:Ei; [simpl; lia|].
+  assert (Hne : intersected c s ks <> []) by (rewrite Ei; discriminate).
+  destruct (intersected_nonempty c s ks Hne) as [Hm _]. rewrite <- Ei, Hm.
+  unfold my_view_of. rewrite isort_length. simpl.
+  destruct (fix_onepass c); [|lia].
+  pose proof (NoDup_incl_length Hnds Hincl). lia.
+Qed.
